@@ -791,7 +791,11 @@ spif_dlinked_list_insert(spif_dlinked_list_t self, spif_obj_t obj)
              current = current->next);
         item->next = current->next;
         item->prev = current;
-        current->next->prev = item;
+        if (SPIF_DLINKED_LIST_ITEM_ISNULL(current->next)) {
+            self->tail = item;
+        } else {
+            current->next->prev = item;
+        }
         current->next = item;
     }
     self->len++;
